@@ -59,7 +59,7 @@ class Pool:
             import zlib
             if zlib.crc32(repr((self.intmode,) + tuple(site[1:])).encode()) % 3 == 0:
                 return a
-        if self.how == "npscalar":
+        if self.how in ("npscalar", "derived"):
             return a
         if self.how == "int":
             if a.dtype != _np.float64:
@@ -285,6 +285,8 @@ class _ClassProxy:
         cls = self._cls
         if _pool is None:
             return cls(*a, **k)
+        if _pool.intmode is not None and _pool.how == "derived":
+            return _derived(cls, a, k)
         if _pool.intmode is not None:
             f = sys._getframe(1)
             site = (f.f_code.co_filename, f.f_lineno, f.f_lasti, "cp")
@@ -326,6 +328,60 @@ class _ClassProxy:
 
     def __instancecheck__(self, inst):
         return isinstance(inst, self._cls)
+
+
+def _warm(o):
+    """a caller that has already used the object: every public property read once, the cheap queries asked once"""
+    for name in dir(type(o)):
+        if name.startswith("_") or not isinstance(getattr(type(o), name, None), property):
+            continue
+        try:
+            getattr(o, name)
+        except Exception:
+            pass
+    probe = _np.array([[0.25, -0.5, 0.75], [1.0, 2.0, 3.0]])
+    for name, args in (("signed_distance", (probe,)), ("sign", (probe,)), ("project_point", (probe,)),
+                       ("nearest", (probe,)), ("index_of_vertex", (probe[0],)), ("intersect_plane", None)):
+        f = getattr(o, name, None)
+        if f is None or args is None:
+            continue
+        try:
+            f(*args)
+        except Exception:
+            pass
+
+
+def _derived(cls, a, k):
+    """the same value, but obtained the way a long-lived program obtains it: from another object of the class that has
+    been used before.  Plane / Polyline: the mirror image (negated normal / reversed vertex list) is built and used,
+    and its `flipped()` is what the adapter gets (negating and reversing are exact, so it is the value the constructor
+    call describes; the model's answer for the plain case applies).  Whatever the first object computed and kept
+    must not reach the second one."""
+    o = cls(*a, **k)
+    if cls.__name__ not in ("Plane", "Polyline"):
+        return o
+    try:
+        # the mirror-image value, built directly and used; the object handed to the adapter is its flipped()
+        if cls.__name__ == "Plane":
+            parent = cls(_np.array(o.reference_point), -_np.array(o.normal))
+        else:
+            parent = cls(_np.array(o.v)[::-1].copy(), is_closed=o.is_closed)
+        _warm(parent)
+        child = parent.flipped()
+    except Exception:
+        return o
+    same = (lambda x, y: _np.array_equal(_np.asarray(x), _np.asarray(y), equal_nan=True))
+    try:
+        if cls.__name__ == "Plane":
+            ok = same(child.reference_point, o.reference_point) and same(child.normal, o.normal)
+        else:
+            ok = same(child.v, o.v) and child.is_closed == o.is_closed
+    except Exception:
+        ok = False
+    if not ok:
+        return o
+    _pool.stats["derived_objects"] = _pool.stats.get("derived_objects", 0) + 1
+    return child
 
 
 def _pooled_class(cls):
